@@ -152,6 +152,19 @@ fn gen_scenarios(c: &mut Ctx, g: &mut Rng) {
         chk_scenario(c, f, &e);
     }
 }
+/// the unstaged lines of a file as the split receives them: from a canonical hunk list (what compress_lines builds)
+fn chk_unstaged(c: &mut Ctx, lines: &[u32], present: bool) {
+    c.evaluated += 1;
+    let input = format!("U;{};{}", lines.iter().map(|x| x.to_string()).collect::<Vec<_>>().join(","), present as u8);
+    let mut m: StdHashMap<String, Vec<LineRange>> = StdHashMap::new();
+    if present { m.insert("f.rs".to_string(), LineRange::compress_lines(lines)); }
+    m.insert("other.rs".to_string(), vec![LineRange::Single(77)]);
+    let key = "f.rs".to_string();
+    match guarded(move || region_split_unstaged_lines(m, &key)) {
+        Err(p) => c.fail("region_split_unstaged_lines", "safety", input, p, "no panic".into()),
+        Ok(got) => { let want: Vec<u32> = if present { lines.to_vec() } else { vec![] }; if got != want { c.fail("region_split_unstaged_lines", "ensures#1", input, format!("{:?}", got), format!("{:?} (strictly increasing, exactly the lines of the file's unstaged hunks)", want)); } }
+    }
+}
 fn main() {
     std::panic::set_hook(Box::new(|_| {}));
     let a: Vec<String> = std::env::args().collect();
@@ -166,12 +179,17 @@ fn main() {
             for s1 in 1u32..6 { for e1 in s1..7 { chk_classify(&mut c, &[(s1, e1, "ai1".into())], &un, Some(&[(1, 2), (4, 4)])); chk_classify(&mut c, &[(s1, e1, "ai1".into()), (e1 + 1, e1 + 2, "ai2".into())], &un, Some(&[(2, 5)])); } }
             chk_classify(&mut c, &[(1, 6, "ai1".into())], &un, None);
         }
+        for mask in 0u32..(1 << 10) { let v: Vec<u32> = (0..10).filter(|i| mask >> i & 1 == 1).map(|i| [1u32, 2, 3, 5, 6, 9, 10, 11, 40, u32::MAX][i]).collect(); chk_unstaged(&mut c, &v, true); }
+        chk_unstaged(&mut c, &[1, 2], false);
         gen_scenarios(&mut c, &mut g);
         for _ in 0..20000 { let base = if g.below(4) == 0 { u32::MAX - 40 } else { g.below(50) as u32 }; let n = 1 + g.below(14) as usize; let mut v = vec![]; let mut cur = base; for _ in 0..n { let step = 1 + if g.below(2) == 0 { 0 } else { g.below(4) as u32 }; match cur.checked_add(step) { Some(nx) => { cur = nx; v.push(cur); } None => break } } chk(&mut c, &v); }
     } else if a[3].starts_with("S;") {
         let p: Vec<&str> = a[3].split(';').collect();
         let e: Vec<String> = p[2].split(' ').map(|x| x.to_string()).collect();
         chk_scenario(&mut c, p[1], &e);
+    } else if a[3].starts_with("U;") {
+        let p: Vec<&str> = a[3].split(';').collect();
+        chk_unstaged(&mut c, &dec_v(p[1]), p[2] == "1");
     } else if a[3].starts_with("C;") {
         let p: Vec<&str> = a[3].split(';').collect();
         let las: Vec<(u32, u32, String)> = p[1].split_whitespace().map(|t| { let q: Vec<&str> = t.split('-').collect(); (q[0].parse().unwrap(), q[1].parse().unwrap(), q[2].to_string()) }).collect();
